@@ -61,6 +61,8 @@ type hctx struct {
 	pcfg pcfgFlags
 	// scenarios in which the real Processor diverged from the model only after a subprocessor ended
 	postFinalization []*procScenario
+	// model traces of processor scenarios, computed before their children run
+	traces map[*procScenario][]traceStep
 	// the re-run of such a scenario is in progress: a divergence now is not queued again
 	rerunning bool
 	// driverBroken is set after the first driver failure: the sections keep running their
@@ -276,6 +278,15 @@ func runReplay(h *hctx, path string) {
 		var sc procScenario
 		if err := json.Unmarshal(b, &sc); err != nil {
 			h.res.Fatalf("replay: %v", err)
+			return
+		}
+		if r, _ := rp["race"].(bool); r {
+			bin, err := buildRaceChild()
+			if err != nil {
+				h.res.Fatalf("race child: %v", err)
+				return
+			}
+			raceEval(h, []*procScenario{&sc}, bin)
 			return
 		}
 		if sc.Once {
